@@ -11,6 +11,8 @@ mod rewrite_plan;
 mod simulation;
 mod visitor;
 
+#[cfg(all(getong_stateright_verif, not(test)))]
+use crate::verif_hooks::std_shim as std;
 use crate::has_discoveries::HasDiscoveries;
 use crate::report::{ReportData, ReportDiscovery, Reporter};
 use crate::{Expectation, Fingerprint, Model};
@@ -22,6 +24,8 @@ use std::sync::{Arc, Mutex};
 use std::thread::JoinHandle;
 use std::time::{Duration, Instant};
 
+#[cfg(getong_stateright_verif)]
+pub use explorer::verif_facade as verif_explorer;
 pub use path::*;
 pub use representative::*;
 pub use rewrite::*;
